@@ -422,3 +422,64 @@ def sum_dtype_rule(chk, repo, rid):
                        '' if ok else f'dtype `{txt}` is taken from one operand only', key=f'{rid}|{q}|dtype|{norm(c)[:80]}')
                 n += 1
     return n
+
+
+# ----------------------------------------------------------------------
+LINEAR_ROUTINES = ['mps.MPS.as_vector', 'mpo.MPO.as_matrix', 'mpo.MPO.identity', 'mps.add_mps', 'mpo.add_mpo', 'mpo.multiply_mpo',
+                   'operation.apply_operator', 'mps.merge_mps_tensor_pair', 'mpo.merge_mpo_tensor_pair',
+                   'mps.MPS.__add__', 'mps.MPS.__sub__', 'mpo.MPO.__add__', 'mpo.MPO.__sub__', 'mpo.MPO.__matmul__']
+VALUE_TESTS = ('np.abs', 'abs', 'np.round', 'np.around', 'np.clip', 'np.sign', 'np.isclose', 'np.allclose', 'np.nonzero',
+               'np.trunc', 'np.floor', 'np.ceil', 'np.argwhere', 'np.flatnonzero', 'np.count_nonzero', 'np.any', 'np.all',
+               'np.iscomplexobj', 'np.isrealobj', 'np.isreal', 'np.iscomplex', 'np.max', 'np.min', 'np.amax', 'np.amin',
+               'np.linalg.norm', 'max', 'min', 'np.array_equal', 'np.nan_to_num')
+VALUE_METHODS = ('round', 'clip', 'any', 'all', 'nonzero', 'max', 'min', 'count_nonzero')
+
+
+def linearity_rules(chk, repo, rid):
+    """exact conversions and arithmetic are (multi)linear in the tensor entries: the entries are moved, multiplied and
+    added, never inspected"""
+    from ..taint import Taint
+
+    def src(e):
+        return isinstance(e, ast.Attribute) and e.attr in ('A', 'data') and isinstance(e.ctx, ast.Load)
+    n = 0
+    for q in LINEAR_ROUTINES:
+        if not repo.has_func(q):
+            continue
+        fi = repo.func(q)
+        arrays = [a.arg for a in fi.node.args.args if a.annotation is not None and 'ndarray' in norm(a.annotation)]
+        T = Taint(repo, fi, arrays, src)
+        in_assert = set()
+        for a in ast.walk(fi.node):
+            if isinstance(a, ast.Assert):
+                in_assert |= {id(x) for x in ast.walk(a)}
+        bad = []
+        for c in ast.walk(fi.node):
+            if id(c) in in_assert:
+                continue
+            if isinstance(c, ast.Compare):
+                ops = [c.left] + list(c.comparators)
+                if any(T.expr_tainted(o) and not _shape_like(o) for o in ops if not isinstance(o, ast.Constant)):
+                    bad.append(c)
+            elif isinstance(c, ast.Call):
+                f = norm(c.func)
+                if f in VALUE_TESTS and any(T.expr_tainted(a) and not _shape_like(a) for a in c.args):
+                    bad.append(c)
+                elif f == 'np.where' and c.args and T.expr_tainted(c.args[0]):
+                    bad.append(c)
+                elif isinstance(c.func, ast.Attribute) and c.func.attr in VALUE_METHODS and T.expr_tainted(c.func.value) and \
+                        not _shape_like(c.func.value):
+                    bad.append(c)
+        chk.ob(rid, where(repo, fi, bad[0] if bad else fi.node), f'{fi.qual}: the tensor entries are moved, multiplied and added but '
+               f'never inspected (no comparison, magnitude, rounding, pruning or dtype test on tensor data)', not bad,
+               '; '.join(f'`{norm(b)[:60]}` (line {b.lineno})' for b in bad[:3]), key=f'{rid}|{q}')
+        n += 1
+    return n
+
+
+def _shape_like(e):
+    """shape / ndim / dtype-free size information of an array is not a value of its entries"""
+    for x in ast.walk(e):
+        if isinstance(x, ast.Attribute) and x.attr in ('shape', 'ndim', 'size', 'nsites', 'qd', 'qD', 'bond_dims'):
+            return True
+    return isinstance(e, ast.Call) and norm(e.func) == 'len'
